@@ -193,7 +193,10 @@ def check_table(repo: Repo, rep: Report):
     got = set()
     if len(rets) == 1 and isinstance(rets[0], ast.BoolOp) and isinstance(rets[0].op, ast.Or):
         got = {src(v) for v in rets[0].values}
-    if got == want:
+    rewrites = [n for n in body_walk(std.node) if isinstance(n, (ast.Assign, ast.AugAssign, ast.AnnAssign)) and any(isinstance(x, ast.Name) and x.id in std.params() and isinstance(x.ctx, ast.Store) for x in ast.walk(n))]
+    if rewrites:
+        rep.bad("C04.table", std.qualname, "std-predicate-rewrites-name", f"`{src(rewrites[0])}` rewrites the module name before it is tested: a module is classified under a different name than the one the pickle resolves (names mapped onto a standard-library name lose the non-standard-import floor and become 'likely safe' callees)", std.file, rewrites[0].lineno)
+    elif got == want:
         rep.ok("C04.table", std.qualname, "is_std_module == in_stdlib(m) or m in sys.builtin_module_names", f"{std.file}:{std.line}")
     else:
         rep.bad("C04.table", std.qualname, "std-predicate", f"is_std_module returns `{[src(r) for r in rets]}`: modules outside that exact predicate would be treated as standard (no LIKELY_UNSAFE floor, and their names become 'likely safe' callees)", std.file, std.line)
@@ -550,4 +553,8 @@ def run(rep: Report, tier: str):
     from .c03 import check_body_chain
 
     check_body_chain(repo, rep, RULE="C04.complete-view")  # an emitted import/call statement must reach the analysed Module
+    from .c09 import check_memo
+
+    # the callee the analyses see is the one the VM calls only if memo traffic is mirrored exactly
+    check_memo(repo, rep, all_summaries(repo), RULE="C04.complete-view")
     check_dedupe(repo, rep)
